@@ -1,3 +1,4 @@
+\* one state per total voting power N = 1..MaxN
 CONSTANTS MaxN = 100000
 INIT Init
 NEXT Next
